@@ -57,9 +57,62 @@ def model_replay(o):
             "note": "bounded differential on generated programs: literal reaches the AST / run time with another value or type"}
 
 
+def validator_obligations(mod, tag):
+    """custom pydantic validators run AFTER the Union coercion the model describes: each must hand its argument back unchanged and
+    never raise (proved on the real body with pyvc); Config options that rewrite values are refused"""
+    import ast
+    import z3
+    from pyvc.smt import Exec, Path, OutOfSubset, Val
+    from pyvc.registry import Registry
+    out = []
+    allp = ("C02", "C03", "C05", "C07", "C10", "C12", "C13", "C15")
+    REWRITING_CONFIG = ("anystr_strip_whitespace", "anystr_lower", "anystr_upper", "min_anystr_length", "max_anystr_length", "validate_assignment", "allow_mutation",
+                        "str_strip_whitespace", "str_to_lower", "str_to_upper", "extra", "json_loads", "alias_generator", "fields", "allow_population_by_field_name")
+    for n in mod.tree.body:
+        if not isinstance(n, ast.ClassDef):
+            continue
+        for st in n.body:
+            if isinstance(st, ast.ClassDef) and st.name == "Config":
+                for s2 in st.body:
+                    for t in (s2.targets if isinstance(s2, ast.Assign) else [getattr(s2, "target", None)]):
+                        if isinstance(t, ast.Name) and t.id in REWRITING_CONFIG:
+                            out.append(Obl("model%s:%s.Config/%s-unset" % (tag, n.name, t.id), "%s:%s" % (MOD, n.name), "model",
+                                           "the model's Config sets no option that rewrites or rejects field values (%s)" % t.id, status=REFUTED, backend="extract",
+                                           detail=ast.unparse(s2), props=allp, model={"kind": "config", "exemplars": []}, replay=model_replay))
+            if not isinstance(st, ast.FunctionDef):
+                continue
+            decos = [ast.unparse(d.func if isinstance(d, ast.Call) else d) for d in st.decorator_list]
+            if not any(d.split(".")[-1] in ("validator", "root_validator", "field_validator", "model_validator") for d in decos):
+                continue
+            oid = "model%s:%s.%s/validator-returns-its-argument" % (tag, n.name, st.name)
+            text = "validator %s.%s hands the (already validated) value back unchanged and never raises" % (n.name, st.name)
+            params = [a.arg for a in st.args.args]
+            try:
+                p = Path()
+                v = z3.Const("v", Val)
+                for i, name in enumerate(params):
+                    p.env[name] = v if i == 1 else z3.Const("arg:" + name, Val)
+                if len(params) < 2:
+                    raise OutOfSubset("validator without a value parameter")
+                ex = Exec(mod, Registry(), "quick")
+                outs = ex.run(st, p)
+                bad = []
+                for (pp, kind, val) in outs:
+                    if kind == "raise":
+                        bad.append("raises %s (%s)" % (val.exc, val.info))
+                    elif not (z3.is_expr(val) and val.eq(v)):
+                        bad.append("returns %s" % (str(val)[:80],))
+                out.append(Obl(oid, "%s:%s.%s" % (MOD, n.name, st.name), "model", text, status=DISCHARGED if not bad else REFUTED, backend="pyvc",
+                               detail="; ".join(bad[:4]), props=allp, model={"kind": "validator", "paths": bad[:4], "exemplars": []} if bad else None, replay=model_replay))
+            except OutOfSubset as e:
+                out.append(Obl(oid, "%s:%s.%s" % (MOD, n.name, st.name), "model", text, status=UNDECIDED, backend="pyvc", detail="out of subset: %s" % e, props=allp))
+    return out
+
+
 def link_models(ctx, mutate=None, tag=""):
     out = []
     mod = load_module(MOD, mutate)
+    out.extend(validator_obligations(mod, tag))
     models = PM.read_models(mod.tree)
     cases = []
     for (cls, field), kinds in DEMANDS.items():
